@@ -21,6 +21,7 @@ import (
 	"fmt"
 	"math/rand"
 	"sort"
+	"sync"
 
 	"github.com/gauss-project/aurorafs/pkg/boson"
 	"github.com/gauss-project/aurorafs/pkg/topology/kademlia"
@@ -40,7 +41,8 @@ type c22Topo struct {
 	self    int64         // last reported own status, -1 never
 	depthOn bool
 	c23On   bool
-	after   string // suffix of violation classes: the kind of event just executed
+	after   string     // suffix of violation classes: the kind of event just executed
+	mu      sync.Mutex // guards the model maps in concurrent phases
 }
 
 func c22Options(binMax int64) kademlia.Options {
@@ -52,8 +54,25 @@ func c22NewTopo(r *gosim.Run, depthOn, c23On bool) *c22Topo {
 	t.binMax = r.Plan.P("binmax", 0)
 	t.quick = c24Quick(t.binMax)
 	t.al = c24NewAlphabet(r.Plan.P("addr_seed", 1))
-	t.node = c24NewNode(r, t.al, c22Options(t.binMax), false)
+	t.node = c24NewNode(r, t.al, t.options(), false)
 	return t
+}
+
+// options of both Kads of a run. With yield_filter the reachability callback is
+// the harness's: same meaning as the default one (reachable = last reported
+// status is public), answered from the model, plus a scheduling point.
+func (t *c22Topo) options() kademlia.Options {
+	o := c22Options(t.binMax)
+	if t.r.Plan.P("yield_filter", 0) == 1 {
+		o.ReachabilityFunc = func(a boson.Address) bool {
+			gosim.Yield()
+			id, ok := t.al.idOf(a)
+			t.mu.Lock()
+			defer t.mu.Unlock()
+			return !ok || t.reach[id] != 1
+		}
+	}
+	return o
 }
 
 func (t *c22Topo) reachable(id int) bool { return t.reach[id] == 1 }
@@ -121,7 +140,7 @@ func (t *c22Topo) checkDepth(who string, d int) {
 func (t *c22Topo) orderCheck(seed int64) {
 	r := t.r
 	rng := rand.New(rand.NewSource(seed))
-	fresh := c24NewNode(r, t.al, c22Options(t.binMax), false)
+	fresh := c24NewNode(r, t.al, t.options(), false)
 	type ev struct {
 		kind int // 0 connect, 1 reach
 		id   int
@@ -184,18 +203,44 @@ func (t *c22Topo) orderCheck(seed int64) {
 	}
 }
 
+func (t *c22Topo) isConn(id int) bool {
+	t.mu.Lock()
+	defer t.mu.Unlock()
+	return t.conn[id]
+}
+
+func (t *c22Topo) setConn(id int, on bool) {
+	t.mu.Lock()
+	if on {
+		t.conn[id] = true
+	} else {
+		delete(t.conn, id)
+	}
+	t.mu.Unlock()
+}
+
+// exec runs one op of a sequential history and checks the oracle after it.
 func (t *c22Topo) exec(o gosim.Op) {
-	r := t.r
-	k := t.node.kad
-	id := int(o.Arg(0))
 	switch o.K {
 	case "conn", "disc", "dforce", "reach", "radius", "self":
 		t.after = ""
 	}
+	if t.apply(o) {
+		t.afterEvent(o)
+	}
+}
+
+// apply performs one op on the Kad and the model; it reports whether the op was
+// a topology event (false: no-op or an observer op). Safe for concurrent use as
+// long as no two goroutines touch the same peer.
+func (t *c22Topo) apply(o gosim.Op) bool {
+	r := t.r
+	k := t.node.kad
+	id := int(o.Arg(0))
 	switch o.K {
 	case "conn":
 		if !t.al.validID(o.Arg(0)) || id >= c24BootBase {
-			return
+			return false
 		}
 		kind := o.Arg(1)
 		p := t.node.p2p.peer(id, c24ModeFull)
@@ -206,12 +251,12 @@ func (t *c22Topo) exec(o gosim.Op) {
 			}
 			t.node.p2p.mu.Unlock()
 			k.Outbound(p)
-			t.conn[id] = true
+			t.setConn(id, true)
 			r.Logf("outbound p%d (bin %d)", id, t.al.bin(id))
 			break
 		}
-		if t.conn[id] {
-			return // the p2p layer never announces an existing connection again
+		if t.isConn(id) {
+			return false // the p2p layer never announces an existing connection again
 		}
 		t.node.p2p.mu.Lock()
 		t.node.p2p.reg[id] = &c24Conn{mode: c24ModeFull}
@@ -222,39 +267,41 @@ func (t *c22Topo) exec(o gosim.Op) {
 			r.Count("probe_inbound_refused")
 			_ = t.node.p2p.Disconnect(p.Address, "refused")
 		} else {
-			t.conn[id] = true
+			t.setConn(id, true)
 		}
 	case "disc":
 		if !t.al.validID(o.Arg(0)) {
-			return
+			return false
 		}
 		t.node.p2p.mu.Lock()
 		delete(t.node.p2p.reg, id)
 		t.node.p2p.mu.Unlock()
 		k.Disconnected(t.node.p2p.peer(id, c24ModeFull), "gone")
-		delete(t.conn, id)
+		t.setConn(id, false)
 		r.Logf("disconnected p%d", id)
 	case "dforce":
 		if !t.al.validID(o.Arg(0)) {
-			return
+			return false
 		}
 		err := k.DisconnectForce(t.al.addr(id), "forced")
 		r.Logf("disconnect-force p%d -> %v", id, err)
 		if err == nil {
-			if !t.conn[id] {
+			if !t.isConn(id) {
 				r.Violate("force-disconnect-unknown", "DisconnectForce of unconnected p%d succeeded", id)
 			}
-			delete(t.conn, id)
-		} else if t.conn[id] {
+			t.setConn(id, false)
+		} else if t.isConn(id) {
 			r.Violate("force-disconnect-failed", "DisconnectForce of connected p%d: %v", id, err)
 		}
 	case "reach":
 		if !t.al.validID(o.Arg(0)) {
-			return
+			return false
 		}
+		t.mu.Lock()
+		t.reach[id] = o.Arg(1) % 3 // first: a harness reachability callback answers from the model
+		t.mu.Unlock()
 		k.Reachable(t.al.addr(id), c24Status(o.Arg(1)))
-		t.reach[id] = o.Arg(1) % 3
-		if t.conn[id] && o.Arg(1)%3 != 1 {
+		if t.isConn(id) && o.Arg(1)%3 != 1 {
 			r.Count("probe_connected_peer_turned_nonpublic")
 		}
 		r.Logf("reachable p%d status=%d", id, o.Arg(1)%3)
@@ -274,15 +321,22 @@ func (t *c22Topo) exec(o gosim.Op) {
 		if t.depthOn {
 			t.orderCheck(o.Arg(0))
 		}
-		return
+		return false
 	case "q1", "qn":
 		if t.c23On {
 			c23Query(t.r, t.c23Env(), o)
 		}
-		return
+		return false
 	default:
-		return
+		return false
 	}
+	return true
+}
+
+// afterEvent: the oracle after one event of a sequential history.
+func (t *c22Topo) afterEvent(o gosim.Op) {
+	r := t.r
+	k := t.node.kad
 	d := int(k.NeighborhoodDepth())
 	r.Logf("  depth=%d connected=%d", d, len(t.conn))
 	if t.depthOn {
@@ -501,10 +555,205 @@ func c22GenEvents(rng *rand.Rand, tier string, p *gosim.Plan, query func(g *c22G
 
 func c22GenPlan(rng *rand.Rand, tier string) *gosim.Plan {
 	p := &gosim.Plan{Params: map[string]int64{}}
+	if rng.Intn(2) == 0 {
+		c22GenConcurrent(rng, tier, p)
+		return p
+	}
 	c22GenEvents(rng, tier, p, nil)
 	// one goroutine drives the Kad: schedules do not matter here
 	p.Params["yield_pct"] = gosim.Pick(rng, 0, 5)
 	return p
+}
+
+// ---- concurrent mode ----
+//
+// Barrier-separated phases; inside a phase 2-3 client goroutines issue their
+// events concurrently. The client of an event is a function of the event (peer
+// id modulo the number of clients; radius changes belong to client 0), so no
+// two goroutines ever touch the same peer or the radius concurrently and the
+// final set of a phase does not depend on the interleaving - for any sub-list
+// of the plan. At the barrier (system quiescent) the stored depth must satisfy
+// the statement for that set and equal the depth of a fresh Kad fed the set
+// sequentially.
+
+func c22Client(o gosim.Op, n int) int {
+	if o.K == "radius" || n <= 1 {
+		return 0
+	}
+	return int(uint64(o.Arg(0)) % uint64(n))
+}
+
+func c22GenConcurrent(rng *rand.Rand, tier string, p *gosim.Plan) {
+	g := &c22Gen{rng: rng, p: p, conn: map[int]bool{}, reach: map[int]int64{}}
+	binMax := gosim.Pick(rng, 5, 5, 5, 7, 10)
+	p.Params["binmax"] = binMax
+	p.Params["addr_seed"] = int64(rng.Intn(1 << 30))
+	p.Params["conc"] = 1
+	nCli := 2 + rng.Intn(3)
+	p.Params["clients"] = int64(nCli)
+	p.Params["yield_pct"] = gosim.Pick(rng, 20, 50, 100, 100)
+	if rng.Intn(3) > 0 {
+		p.Params["sched_mode"] = 0 // no sticky scheduling: more interleavings
+	}
+	// half of the concurrent runs install a reachability callback (an option of
+	// the Kad) that answers from the model and offers a switch each time the
+	// depth walk asks it
+	p.Params["yield_filter"] = int64(rng.Intn(2))
+	p.Params["reach_mode"] = 0
+	g.q = c24Quick(binMax)
+	g.mode = 0 // public at connect: the depth follows the connections
+	if rng.Intn(3) == 0 {
+		g.mode = 2
+		p.Params["reach_mode"] = 2
+	}
+	g.depth = 1 + rng.Intn(6)
+	barrier := func() { p.Ops = append(p.Ops, gosim.Op{K: "barrier"}) }
+	// phase 0: the set around the target depth, built concurrently
+	for b := 0; b < g.depth; b++ {
+		for i, n := 0, g.q+rng.Intn(2); i < n; i++ {
+			g.connect(g.freshIn(b))
+		}
+	}
+	for i, n := 0, 2+rng.Intn(4); i < n; i++ {
+		g.connect(g.freshIn(min(g.depth+rng.Intn(3), 31)))
+	}
+	barrier()
+	nPhase := 4 + rng.Intn(8)
+	if tier == "thorough" {
+		nPhase = 8 + rng.Intn(20)
+	}
+	for ph := 0; ph < nPhase; ph++ {
+		// few events per phase, close to the bins that decide the depth, so that
+		// overlapping notifications compute different depths
+		for i, n := 0, 2+rng.Intn(7); i < n; i++ {
+			b := rng.Intn(g.depth + 2)
+			if b > 31 {
+				b = 31
+			}
+			// the generator's estimate of the current depth: first bin with
+			// fewer than the quick-saturation number of connected peers
+			var cnt [32]int
+			for id := range g.conn {
+				cnt[id/c24PerBin]++
+			}
+			est := 0
+			for est < 31 && cnt[est] >= g.q {
+				est++
+			}
+			x := rng.Intn(100)
+			if crit := rng.Intn(100); crit < 60 {
+				// an event that moves the depth: fill the first thin bin, or
+				// thin out a bin below it that is only just saturated
+				var just []int
+				for id := range g.conn {
+					if b := id / c24PerBin; b < est && cnt[b] == g.q {
+						just = append(just, id)
+					}
+				}
+				sort.Ints(just)
+				if len(just) > 0 && crit < 30 {
+					id := just[rng.Intn(len(just))]
+					g.emit(gosim.Op{K: "disc", A: []int64{int64(id)}})
+					delete(g.conn, id)
+				} else {
+					g.connect(g.freshIn(est))
+				}
+				continue
+			}
+			switch {
+			case x < 40:
+				// disconnect a peer of a shallow bin
+				var cands []int
+				for id := range g.conn {
+					if id/c24PerBin <= g.depth+1 {
+						cands = append(cands, id)
+					}
+				}
+				if len(cands) == 0 {
+					continue
+				}
+				sort.Ints(cands)
+				id := cands[rng.Intn(len(cands))]
+				g.emit(gosim.Op{K: "disc", A: []int64{int64(id)}})
+				delete(g.conn, id)
+			case x < 80:
+				g.connect(g.freshIn(b))
+			case x < 90:
+				g.emit(gosim.Op{K: "radius", A: []int64{int64(max(0, g.depth+rng.Intn(5)-2) & 31)}})
+			default:
+				if g.mode == 2 {
+					if id, ok := g.pickConnected(); ok {
+						st := gosim.Pick(rng, 1, 2, 0)
+						g.emit(gosim.Op{K: "reach", A: []int64{int64(id), st}})
+						g.reach[id] = st
+					}
+				} else if id, ok := g.pickConnected(); ok {
+					g.emit(gosim.Op{K: "dforce", A: []int64{int64(id)}})
+					delete(g.conn, id)
+				}
+			}
+		}
+		barrier()
+	}
+	p.Params["final_shuffle"] = int64(rng.Intn(1 << 30))
+}
+
+func c22ExecConcurrent(r *gosim.Run, t *c22Topo) {
+	nCli := int(r.Plan.P("clients", 2))
+	if nCli < 1 || nCli > 8 {
+		nCli = 2
+	}
+	ops := r.Plan.Ops
+	phase := 0
+	for i := 0; i <= len(ops); {
+		j := i
+		for j < len(ops) && ops[j].K != "barrier" {
+			j++
+		}
+		by := make([][]gosim.Op, nCli)
+		for _, o := range ops[i:j] {
+			switch o.K {
+			case "conn", "disc", "dforce", "reach", "radius":
+				c := c22Client(o, nCli)
+				by[c] = append(by[c], o)
+			}
+		}
+		busy := 0
+		var wg sync.WaitGroup
+		for _, list := range by {
+			if len(list) == 0 {
+				continue
+			}
+			busy++
+			wg.Add(1)
+			go func(list []gosim.Op) {
+				defer wg.Done()
+				for _, o := range list {
+					t.apply(o)
+					r.OpDone()
+				}
+			}(list)
+		}
+		wg.Wait()
+		gosim.Idle()
+		if busy >= 2 {
+			r.Count("probe_concurrent_phase")
+		}
+		// quiescent: the stored depth must be the depth of the current set
+		d := int(t.node.kad.NeighborhoodDepth())
+		r.Logf("barrier %d: depth=%d connected=%v radius=%d", phase, d, t.connected(), t.radius)
+		t.after = ""
+		t.checkDepth("kad(quiescent)", d)
+		got := t.node.connectedIDs(r)
+		want := t.connected()
+		if fmt.Sprint(got) != fmt.Sprint(want) {
+			r.Violate("connected-set", "barrier %d: topology reports %v, connected are %v", phase, got, want)
+		}
+		t.orderCheck(r.Plan.P("final_shuffle", 7) + int64(phase))
+		phase++
+		i = j + 1
+	}
+	r.Add("final_connected", int64(len(t.conn)))
 }
 
 func c22Exec(r *gosim.Run) {
@@ -514,6 +763,10 @@ func c22Exec(r *gosim.Run) {
 		if int(boson.Proximity(t.al.base.Bytes(), t.al.addr(id).Bytes())) != t.al.bin(id) {
 			panic(fmt.Sprintf("HARNESS-ERROR alphabet: p%d not in bin %d", id, t.al.bin(id)))
 		}
+	}
+	if r.Plan.P("conc", 0) == 1 {
+		c22ExecConcurrent(r, t)
+		return
 	}
 	for _, o := range r.Plan.Ops {
 		t.exec(o)
